@@ -997,6 +997,12 @@ func (req *Request) ResetBody() {
 func (req *Request) CopyTo(dst *Request) {
 	req.copyToSkipBody(dst)
 	switch {
+	case req.onlyMultipartForm():
+		// The body was consumed into the form when the request was read.
+		// Give dst the form's serialisation, which it parses on demand.
+		if body, err := marshalMultipartForm(req.multipartForm, req.multipartFormBoundary); err == nil {
+			dst.bodyBuffer().Set(body)
+		}
 	case req.bodyRaw != nil:
 		dst.bodyRaw = append(dst.bodyRaw[:0], req.bodyRaw...)
 		if dst.body != nil {
